@@ -1,5 +1,1225 @@
-//! C24 harness (stub: not implemented yet).
+//! C24 — node databases behave like their simple models.
+//!
+//! Case input: `<store> <op> <op> …` (see `lean/HeartwoodModel/Driver/C24.lean` for the op syntax); the ops
+//! are run one by one against a fresh in-memory SQLite instance of the REAL store
+//! (`radicle::node::Database` for routing / repo-sync-status / refs / announcements,
+//! `radicle::node::policy::store::Store` for the policies; foreign keys off, as in the repository's own store
+//! tests). Output: one token per op: the op's result and, for writes, the whole table (sorted).
+//!
+//! `routing.prune` is relational (ties in `ORDER BY timestamp LIMIT n`): its op carries, as last field, the
+//! set of rows the real code deleted (filled in by a first execution when the case is generated); the model
+//! checks that this set is the outcome of a legal selection. On re-execution the harness compares the set it
+//! observes with the one in the text (`hint-mismatch`).
+//!
+//! Oracle (the property statement evaluated on consecutive dumps of the real tables):
+//! * routing: an entry present before and after an op never goes back in time (`routing-ts-decreased`);
+//!   prune leaves the entries of the ignored (local) node alone (`prune-removed-local`), removes only entries
+//!   older than `oldest` (`prune-removed-fresh`), at most `limit` (`prune-over-limit`), and reports what it
+//!   removed (`prune-count-wrong`);
+//! * sync status / refs: a row changes only to a strictly newer timestamp and a different value, namely
+//!   the written ones (`sync-not-strictly-newer`, `refs-not-strictly-newer`);
+//! * policies: after a write the written column shows the written value, scope shown under `allow` is the
+//!   last scope written since the row exists (`policy-not-last-write`); other rows and the other table are
+//!   untouched (`policy-frame-broken`);
+//! * gossip: a stored announcement changes only by `announced` of the same (node, repo, type) with a
+//!   strictly greater timestamp (`gossip-replaced-not-newer`, `gossip-replaced-by-other-kind`).
+
+use std::collections::BTreeMap;
+use std::str::FromStr;
+use std::sync::OnceLock;
+
+use radicle::crypto::{KeyPair, Seed, Signature};
+use radicle::git::{Oid, RefString};
+use radicle::identity::RepoId;
+use radicle::node::policy::store::StoreWriter;
+use radicle::node::policy::{Policy, Scope, SeedingPolicy};
+use radicle::node::refs::Store as RefsStore;
+use radicle::node::routing::{InsertResult, Store as RoutingStore};
+use radicle::node::seed::Store as SeedStore;
+use radicle::node::{Alias, Database, Features, NodeId, Timestamp, UserAgent};
+use radicle_node::bounded::BoundedVec;
+use radicle_node::service::filter::Filter;
+use radicle_node::service::gossip::{RelayStatus, Store as GossipStore};
+use radicle_node::service::message::{
+    Announcement, AnnouncementMessage, InventoryAnnouncement, NodeAnnouncement, RefsAnnouncement,
+};
+use radicle_node::LocalTime;
+use verif_common::*;
+
+const POOL: usize = 8;
+const MAX_TS: u64 = i64::MAX as u64;
+
+struct Pools {
+    nids: Vec<NodeId>,
+    rids: Vec<RepoId>,
+    oids: Vec<Oid>,
+}
+
+fn pools() -> &'static Pools {
+    static P: OnceLock<Pools> = OnceLock::new();
+    P.get_or_init(|| Pools {
+        nids: (0..POOL as u64)
+            .map(|k| {
+                let mut seed = [0x24u8; 32];
+                seed[..8].copy_from_slice(&k.to_le_bytes());
+                NodeId::from(KeyPair::from_seed(Seed::new(seed)).pk)
+            })
+            .collect(),
+        rids: (0..POOL).map(|i| RepoId::from(Oid::from_str(&format!("{:040x}", 0x1000 + i)).unwrap())).collect(),
+        oids: (0..64).map(|i| Oid::from_str(&format!("{:040x}", 0xabc000 + i)).unwrap()).collect(),
+    })
+}
+
+fn nid(i: usize) -> Option<NodeId> {
+    pools().nids.get(i).copied()
+}
+fn rid(i: usize) -> Option<RepoId> {
+    pools().rids.get(i).copied()
+}
+fn oid(i: usize) -> Option<Oid> {
+    pools().oids.get(i).copied()
+}
+fn nid_ix(n: &NodeId) -> usize {
+    pools().nids.iter().position(|x| x == n).unwrap_or(999)
+}
+fn rid_ix(r: &RepoId) -> usize {
+    pools().rids.iter().position(|x| x == r).unwrap_or(999)
+}
+fn oid_ix(o: &Oid) -> usize {
+    pools().oids.iter().position(|x| x == o).unwrap_or(999)
+}
+fn ts(t: u64) -> Option<Timestamp> {
+    Timestamp::try_from(t).ok()
+}
+fn num(s: &str) -> Option<u64> {
+    if s.is_empty() || !s.bytes().all(|b| b.is_ascii_digit()) {
+        return None;
+    }
+    s.parse().ok()
+}
+fn ix(s: &str) -> Option<usize> {
+    num(s).map(|n| n as usize)
+}
+fn list(s: &str) -> Option<Vec<usize>> {
+    if s == "-" {
+        return Some(vec![]);
+    }
+    s.split(',').map(ix).collect()
+}
+fn show<T: ToString>(rows: impl IntoIterator<Item = T>) -> String {
+    let v: Vec<String> = rows.into_iter().map(|r| r.to_string()).collect();
+    if v.is_empty() {
+        "-".into()
+    } else {
+        v.join(",")
+    }
+}
+fn memdb() -> Database {
+    let db = Database::memory().expect("in-memory database");
+    // as in the repository's own store tests: foreign keys are not under test here
+    db.execute("PRAGMA foreign_keys = OFF").expect("pragma");
+    db
+}
+
+type Viol = Vec<(String, String)>;
+
+struct Run {
+    outs: Vec<String>,
+    viol: Viol,
+    tags: Vec<String>,
+    changed: usize,
+    refused: usize,
+}
+
+impl Run {
+    fn new(store: &str) -> Self {
+        Run { outs: vec![], viol: vec![], tags: vec![store.to_string()], changed: 0, refused: 0 }
+    }
+    fn tag(&mut self, t: &str) {
+        self.tags.push(t.to_string());
+    }
+    fn v(&mut self, class: &str, msg: String) {
+        self.viol.push((class.to_string(), msg));
+    }
+    fn finish(mut self) -> Outcome {
+        self.tags.sort();
+        self.tags.dedup();
+        let mut o = Outcome::new(if self.outs.is_empty() { "empty".to_string() } else { self.outs.join(" ") });
+        o.violations = self.viol;
+        o.tags = self.tags;
+        o.nontrivial = self.changed > 0 && self.refused > 0;
+        o
+    }
+}
+
+fn bad() -> Outcome {
+    Outcome::new("bad-case").trivial()
+}
+
+// ---------------------------------------------------------------------------------------------
+// routing
+
+type RMap = BTreeMap<(usize, usize), u64>;
+
+fn routing_dump(db: &Database) -> Result<RMap, String> {
+    let mut m = RMap::new();
+    for (r, n) in db.entries().map_err(|e| e.to_string())? {
+        let t = db.entry(&r, &n).map_err(|e| e.to_string())?.ok_or("entry vanished")?;
+        m.insert((rid_ix(&r), nid_ix(&n)), *t);
+    }
+    Ok(m)
+}
+
+fn show_rmap(m: &RMap) -> String {
+    show(m.iter().map(|((r, n), t)| format!("{r}.{n}@{t}")))
+}
+
+/// Runs routing ops; `resolved` receives the op texts with prune hints replaced by what the real code did.
+fn run_routing(ops: &[&str], resolve: bool, resolved: &mut Vec<String>) -> Outcome {
+    let mut db = memdb();
+    let mut run = Run::new("routing");
+    for op in ops {
+        let f: Vec<&str> = op.split(':').collect();
+        let before = match routing_dump(&db) {
+            Ok(m) => m,
+            Err(e) => return Outcome::new(format!("error:{e}")).violation("store-error", e),
+        };
+        let mut op_text = op.to_string();
+        let mut prune_info: Option<(u64, Option<usize>, usize, usize)> = None;
+        let res: Result<String, String> = match f.as_slice() {
+            ["add", n, t, rids] => {
+                let (Some(n), Some(t), Some(rids)) = (ix(n).and_then(nid), num(t).and_then(ts), list(rids)) else { return bad() };
+                let Some(rids) = rids.into_iter().map(rid).collect::<Option<Vec<_>>>() else { return bad() };
+                for r in &rids {
+                    match before.get(&(rid_ix(r), nid_ix(&n))) {
+                        None => run.tag("add-new"),
+                        Some(t0) if *t0 < *t => run.tag("add-newer"),
+                        Some(t0) if *t0 == *t => run.tag("add-equal-ts"),
+                        Some(_) => run.tag("add-older"),
+                    }
+                }
+                db.add_inventory(rids.iter(), n, t).map_err(|e| e.to_string()).map(|rs| {
+                    rs.iter()
+                        .map(|(_, r)| match r {
+                            InsertResult::SeedAdded => 'S',
+                            InsertResult::TimeUpdated => 'T',
+                            InsertResult::NotUpdated => 'N',
+                        })
+                        .collect()
+                })
+            }
+            ["rm", r, n] => {
+                let (Some(r), Some(n)) = (ix(r).and_then(rid), ix(n).and_then(nid)) else { return bad() };
+                run.tag("remove");
+                db.remove_inventory(&r, &n).map_err(|e| e.to_string()).map(|b| (b as u8).to_string())
+            }
+            ["rmm", n, rids] => {
+                let (Some(n), Some(rids)) = (ix(n).and_then(nid), list(rids)) else { return bad() };
+                let Some(rids) = rids.into_iter().map(rid).collect::<Option<Vec<_>>>() else { return bad() };
+                run.tag("remove-many");
+                db.remove_inventories(rids.iter(), &n).map_err(|e| e.to_string()).map(|_| "ok".to_string())
+            }
+            ["prune", oldest, limit, ignore, hint] => {
+                let (Some(o), Some(ig)) = (num(oldest), ix(ignore)) else { return bad() };
+                let (Some(ot), Some(ign)) = (ts(o), nid(ig)) else { return bad() };
+                let limit = if *limit == "-" { None } else { Some(ix(limit)) };
+                let limit = match limit {
+                    None => None,
+                    Some(Some(l)) => Some(l),
+                    Some(None) => return bad(),
+                };
+                if *hint == "?" && !resolve {
+                    return bad();
+                }
+                prune_info = Some((o, limit, ig, 0));
+                // distribution: does the cut fall inside a group of equal timestamps?
+                let mut cand: Vec<u64> = before.values().copied().filter(|t| *t < o).collect();
+                cand.sort();
+                if let Some(l) = limit {
+                    if l < cand.len() {
+                        run.tag("prune-limit-binds");
+                        if l > 0 && cand[l - 1] == cand[l] {
+                            run.tag("prune-tie-at-cut");
+                        }
+                    }
+                }
+                if before.iter().any(|((_, n), t)| *n == ig && *t < o) {
+                    run.tag("prune-local-is-old");
+                }
+                let _ = hint;
+                RoutingStore::prune(&mut db, ot, limit, &ign).map_err(|e| e.to_string()).map(|c| c.to_string())
+            }
+            ["entry", r, n] => {
+                let (Some(r), Some(n)) = (ix(r).and_then(rid), ix(n).and_then(nid)) else { return bad() };
+                db.entry(&r, &n).map_err(|e| e.to_string()).map(|t| t.map(|t| t.to_string()).unwrap_or("-".into()))
+            }
+            ["get", r] => {
+                let Some(r) = ix(r).and_then(rid) else { return bad() };
+                RoutingStore::get(&db, &r).map_err(|e| e.to_string()).map(|s| {
+                    let mut v: Vec<usize> = s.iter().map(nid_ix).collect();
+                    v.sort();
+                    show(v)
+                })
+            }
+            ["inv", n] => {
+                let Some(n) = ix(n).and_then(nid) else { return bad() };
+                db.get_inventory(&n).map_err(|e| e.to_string()).map(|s| {
+                    let mut v: Vec<usize> = s.iter().map(rid_ix).collect();
+                    v.sort();
+                    show(v)
+                })
+            }
+            ["len"] => RoutingStore::len(&db).map_err(|e| e.to_string()).map(|n| n.to_string()),
+            ["count", r] => {
+                let Some(r) = ix(r).and_then(rid) else { return bad() };
+                RoutingStore::count(&db, &r).map_err(|e| e.to_string()).map(|n| n.to_string())
+            }
+            _ => return bad(),
+        };
+        let is_write = matches!(f[0], "add" | "rm" | "rmm" | "prune");
+        let res = match res {
+            Ok(r) => r,
+            Err(e) => {
+                run.outs.push("error".into());
+                run.v("store-error", format!("op {op}: {e}"));
+                resolved.push(op_text);
+                continue;
+            }
+        };
+        if !is_write {
+            run.outs.push(res);
+            resolved.push(op_text);
+            continue;
+        }
+        let after = match routing_dump(&db) {
+            Ok(m) => m,
+            Err(e) => return Outcome::new(format!("error:{e}")).violation("store-error", e),
+        };
+        // ---- oracle: timestamps only increase
+        for (k, t0) in &before {
+            if let Some(t1) = after.get(k) {
+                if t1 < t0 {
+                    run.v("routing-ts-decreased", format!("op {op}: entry {}.{} went from {t0} back to {t1}", k.0, k.1));
+                }
+            }
+        }
+        if after != before {
+            run.changed += 1;
+        } else {
+            run.refused += 1;
+        }
+        let mut out = format!("{res}|{}", show_rmap(&after));
+        if let Some((o, limit, ig, _)) = prune_info {
+            let deleted: Vec<(usize, usize)> = before.keys().filter(|k| !after.contains_key(k)).copied().collect();
+            // ---- oracle: prune
+            for k in &deleted {
+                if k.1 == ig {
+                    run.v("prune-removed-local", format!("op {op}: entry {}.{} of the ignored node was removed", k.0, k.1));
+                }
+                if before[k] >= o {
+                    run.v("prune-removed-fresh", format!("op {op}: entry {}.{} with timestamp {} >= {o} was removed", k.0, k.1, before[k]));
+                }
+            }
+            if let Some(l) = limit {
+                if deleted.len() > l {
+                    run.v("prune-over-limit", format!("op {op}: {} entries removed, limit {l}", deleted.len()));
+                }
+            }
+            for (k, t1) in &after {
+                if before.get(k) != Some(t1) {
+                    run.v("prune-removed-local", format!("op {op}: entry {}.{} was created or changed by prune", k.0, k.1));
+                }
+            }
+            if res != deleted.len().to_string() {
+                run.v("prune-count-wrong", format!("op {op}: reported {res}, removed {}", deleted.len()));
+            }
+            let shown = show(deleted.iter().map(|(r, n)| format!("{r}.{n}")));
+            if f[4] == "?" {
+                op_text = format!("prune:{}:{}:{}:{shown}", f[1], f[2], f[3]);
+            } else if shown != canonical_keys(f[4]) {
+                out.push_str("|hint-mismatch");
+            }
+        }
+        run.outs.push(out);
+        resolved.push(op_text);
+    }
+    run.finish()
+}
+
+fn canonical_keys(h: &str) -> String {
+    if h == "-" {
+        return "-".into();
+    }
+    let mut v: Vec<(usize, usize)> = h
+        .split(',')
+        .filter_map(|k| {
+            let (a, b) = k.split_once('.')?;
+            Some((ix(a)?, ix(b)?))
+        })
+        .collect();
+    v.sort();
+    show(v.iter().map(|(r, n)| format!("{r}.{n}")))
+}
+
+// ---------------------------------------------------------------------------------------------
+// repo-sync-status and refs
+
+type GMapT<K> = BTreeMap<K, (usize, u64)>;
+
+fn guarded_oracle<K: Ord + Clone + std::fmt::Debug>(
+    run: &mut Run,
+    class: &str,
+    op: &str,
+    before: &GMapT<K>,
+    after: &GMapT<K>,
+    written: Option<(&K, usize, u64)>,
+) {
+    for (k, (v0, t0)) in before {
+        if let Some((v1, t1)) = after.get(k) {
+            if (v1, t1) != (v0, t0) {
+                let ok = t1 > t0 && v1 != v0 && written.map(|(wk, wv, wt)| wk == k && wv == *v1 && wt == *t1).unwrap_or(false);
+                if !ok {
+                    run.v(class, format!("op {op}: row {k:?} went from {v0}@{t0} to {v1}@{t1}"));
+                }
+            }
+        }
+    }
+    if let Some((k, v, t)) = written {
+        match before.get(k) {
+            None => run.tag("set-new"),
+            Some((v0, t0)) => run.tag(&format!(
+                "set-{}-{}",
+                if t > *t0 { "newer" } else if t == *t0 { "equal" } else { "older" },
+                if v != *v0 { "diff" } else { "same" }
+            )),
+        }
+    }
+    if after != before {
+        run.changed += 1;
+    } else {
+        run.refused += 1;
+    }
+}
+
+fn sync_dump(db: &Database) -> Result<GMapT<(usize, usize)>, String> {
+    let mut m = BTreeMap::new();
+    for r in &pools().rids {
+        for s in db.seeds_for(r).map_err(|e| e.to_string())? {
+            let s = s.map_err(|e| e.to_string())?;
+            m.insert((rid_ix(r), nid_ix(&s.nid)), (oid_ix(&s.synced_at.oid), s.synced_at.timestamp.as_millis() as u64));
+        }
+    }
+    Ok(m)
+}
+
+fn run_sync(ops: &[&str]) -> Outcome {
+    let mut db = memdb();
+    let mut run = Run::new("sync");
+    for op in ops {
+        let f: Vec<&str> = op.split(':').collect();
+        match f.as_slice() {
+            ["syn", r, n, h, t] => {
+                let (Some(ri), Some(ni), Some(hi), Some(tt)) = (ix(r), ix(n), ix(h), num(t)) else { return bad() };
+                let (Some(r), Some(n), Some(h), Some(t)) = (rid(ri), nid(ni), oid(hi), ts(tt)) else { return bad() };
+                let before = match sync_dump(&db) {
+                    Ok(m) => m,
+                    Err(e) => return Outcome::new("error").violation("store-error", e),
+                };
+                match db.synced(&r, &n, h, t) {
+                    Err(e) => {
+                        run.outs.push("error".into());
+                        run.v("store-error", format!("op {op}: {e}"));
+                    }
+                    Ok(b) => {
+                        let after = match sync_dump(&db) {
+                            Ok(m) => m,
+                            Err(e) => return Outcome::new("error").violation("store-error", e),
+                        };
+                        guarded_oracle(&mut run, "sync-not-strictly-newer", op, &before, &after, Some((&(ri, ni), hi, tt)));
+                        run.outs.push(format!(
+                            "{}|{}",
+                            b as u8,
+                            show(after.iter().map(|((r, n), (h, t))| format!("{r}.{n}={h}@{t}")))
+                        ));
+                    }
+                }
+            }
+            ["for", r] => {
+                let Some(r) = ix(r).and_then(rid) else { return bad() };
+                let rows: Result<Vec<_>, String> = db
+                    .seeds_for(&r)
+                    .map_err(|e| e.to_string())
+                    .and_then(|it| it.map(|s| s.map_err(|e| e.to_string())).collect());
+                match rows {
+                    Err(e) => {
+                        run.outs.push("error".into());
+                        run.v("store-error", e);
+                    }
+                    Ok(rows) => {
+                        let mut v: Vec<(usize, usize, u64)> = rows
+                            .iter()
+                            .map(|s| (nid_ix(&s.nid), oid_ix(&s.synced_at.oid), s.synced_at.timestamp.as_millis() as u64))
+                            .collect();
+                        v.sort();
+                        run.outs.push(show(v.iter().map(|(n, h, t)| format!("{n}={h}@{t}"))));
+                    }
+                }
+            }
+            ["by", n] => {
+                let Some(n) = ix(n).and_then(nid) else { return bad() };
+                let rows: Result<Vec<_>, String> = db
+                    .seeded_by(&n)
+                    .map_err(|e| e.to_string())
+                    .and_then(|it| it.map(|s| s.map_err(|e| e.to_string())).collect());
+                match rows {
+                    Err(e) => {
+                        run.outs.push("error".into());
+                        run.v("store-error", e);
+                    }
+                    Ok(rows) => {
+                        let mut v: Vec<(usize, usize, u64)> =
+                            rows.iter().map(|(r, s)| (rid_ix(r), oid_ix(&s.oid), s.timestamp.as_millis() as u64)).collect();
+                        v.sort();
+                        run.outs.push(show(v.iter().map(|(r, h, t)| format!("{r}={h}@{t}"))));
+                    }
+                }
+            }
+            _ => return bad(),
+        }
+    }
+    run.finish()
+}
+
+const REFS_U: usize = 3;
+
+fn refname(i: usize) -> radicle::git::Qualified<'static> {
+    let s = RefString::try_from(format!("b{i}")).expect("valid ref component");
+    radicle::git::refs::branch(&s)
+}
+
+fn refs_dump(db: &Database) -> Result<GMapT<(usize, usize, usize)>, String> {
+    let mut m = BTreeMap::new();
+    for r in 0..REFS_U {
+        for n in 0..REFS_U {
+            for f in 0..REFS_U {
+                if let Some((o, t)) = RefsStore::get(db, &rid(r).unwrap(), &nid(n).unwrap(), &refname(f)).map_err(|e| e.to_string())? {
+                    m.insert((r, n, f), (oid_ix(&o), t.as_millis() as u64));
+                }
+            }
+        }
+    }
+    Ok(m)
+}
+
+fn run_refs(ops: &[&str]) -> Outcome {
+    let mut db = memdb();
+    let mut run = Run::new("refs");
+    let dump_s = |m: &GMapT<(usize, usize, usize)>| show(m.iter().map(|((r, n, f), (o, t))| format!("{r}.{n}.{f}={o}@{t}")));
+    for op in ops {
+        let f: Vec<&str> = op.split(':').collect();
+        let key = |r: &str, n: &str, rf: &str| -> Option<(usize, usize, usize)> {
+            let k = (ix(r)?, ix(n)?, ix(rf)?);
+            (k.0 < REFS_U && k.1 < REFS_U && k.2 < REFS_U).then_some(k)
+        };
+        match f.as_slice() {
+            ["set", r, n, rf, o, t] => {
+                let (Some(k), Some(oi), Some(tt)) = (key(r, n, rf), ix(o), num(t)) else { return bad() };
+                let Some(o) = oid(oi) else { return bad() };
+                if tt > MAX_TS {
+                    return bad();
+                }
+                let before = match refs_dump(&db) {
+                    Ok(m) => m,
+                    Err(e) => return Outcome::new("error").violation("store-error", e),
+                };
+                match RefsStore::set(&mut db, &rid(k.0).unwrap(), &nid(k.1).unwrap(), &refname(k.2), o, LocalTime::from_millis(tt as u128)) {
+                    Err(e) => {
+                        run.outs.push("error".into());
+                        run.v("store-error", format!("op {op}: {e}"));
+                    }
+                    Ok(b) => {
+                        let after = match refs_dump(&db) {
+                            Ok(m) => m,
+                            Err(e) => return Outcome::new("error").violation("store-error", e),
+                        };
+                        guarded_oracle(&mut run, "refs-not-strictly-newer", op, &before, &after, Some((&k, oi, tt)));
+                        run.outs.push(format!("{}|{}", b as u8, dump_s(&after)));
+                    }
+                }
+            }
+            ["del", r, n, rf] => {
+                let Some(k) = key(r, n, rf) else { return bad() };
+                let before = match refs_dump(&db) {
+                    Ok(m) => m,
+                    Err(e) => return Outcome::new("error").violation("store-error", e),
+                };
+                match RefsStore::delete(&mut db, &rid(k.0).unwrap(), &nid(k.1).unwrap(), &refname(k.2)) {
+                    Err(e) => {
+                        run.outs.push("error".into());
+                        run.v("store-error", format!("op {op}: {e}"));
+                    }
+                    Ok(b) => {
+                        let after = match refs_dump(&db) {
+                            Ok(m) => m,
+                            Err(e) => return Outcome::new("error").violation("store-error", e),
+                        };
+                        run.tag("delete");
+                        guarded_oracle(&mut run, "refs-not-strictly-newer", op, &before, &after, None);
+                        run.outs.push(format!("{}|{}", b as u8, dump_s(&after)));
+                    }
+                }
+            }
+            ["get", r, n, rf] => {
+                let Some(k) = key(r, n, rf) else { return bad() };
+                match RefsStore::get(&db, &rid(k.0).unwrap(), &nid(k.1).unwrap(), &refname(k.2)) {
+                    Err(e) => {
+                        run.outs.push("error".into());
+                        run.v("store-error", format!("op {op}: {e}"));
+                    }
+                    Ok(None) => run.outs.push("-".into()),
+                    Ok(Some((o, t))) => run.outs.push(format!("{}@{}", oid_ix(&o), t.as_millis())),
+                }
+            }
+            ["count"] => match RefsStore::count(&db) {
+                Err(e) => {
+                    run.outs.push("error".into());
+                    run.v("store-error", format!("op {op}: {e}"));
+                }
+                Ok(n) => run.outs.push(n.to_string()),
+            },
+            _ => return bad(),
+        }
+    }
+    run.finish()
+}
+
+// ---------------------------------------------------------------------------------------------
+// policies
+
+const POL_U: usize = 4;
+
+#[derive(Clone, PartialEq, Debug)]
+struct PolDump {
+    /// id -> (alias index, policy)
+    following: BTreeMap<usize, (usize, char)>,
+    /// id -> "A.f" | "A.a" | "B"
+    seeding: BTreeMap<usize, String>,
+}
+
+fn alias_ix(a: &Option<Alias>) -> usize {
+    match a {
+        None => 0,
+        Some(a) => a.as_str().strip_prefix("al").and_then(|s| s.parse().ok()).unwrap_or(999),
+    }
+}
+
+fn pol_char(p: Policy) -> char {
+    match p {
+        Policy::Allow => 'a',
+        Policy::Block => 'b',
+    }
+}
+
+fn policy_dump(db: &StoreWriter, run: &mut Run) -> Result<PolDump, String> {
+    let mut d = PolDump { following: BTreeMap::new(), seeding: BTreeMap::new() };
+    for i in 0..POL_U {
+        if let Some(fp) = db.follow_policy(&nid(i).unwrap()).map_err(|e| e.to_string())? {
+            d.following.insert(i, (alias_ix(&fp.alias), pol_char(fp.policy)));
+        }
+        let following = db.is_following(&nid(i).unwrap()).map_err(|e| e.to_string())?;
+        if following != matches!(d.following.get(&i), Some((_, 'a'))) {
+            run.v("policy-view-inconsistent", format!("is_following({i}) disagrees with follow_policy"));
+        }
+        if let Some(sp) = db.seed_policy(&rid(i).unwrap()).map_err(|e| e.to_string())? {
+            d.seeding.insert(
+                i,
+                match sp.policy {
+                    SeedingPolicy::Allow { scope: Scope::Followed } => "A.f".to_string(),
+                    SeedingPolicy::Allow { scope: Scope::All } => "A.a".to_string(),
+                    SeedingPolicy::Block => "B".to_string(),
+                },
+            );
+        }
+        let seeding = db.is_seeding(&rid(i).unwrap()).map_err(|e| e.to_string())?;
+        if seeding != d.seeding.get(&i).map(|s| s.starts_with('A')).unwrap_or(false) {
+            run.v("policy-view-inconsistent", format!("is_seeding({i}) disagrees with seed_policy"));
+        }
+    }
+    // the table iterators must agree with the point queries
+    let all_f: BTreeMap<usize, (usize, char)> = db
+        .follow_policies()
+        .map_err(|e| e.to_string())?
+        .map(|fp| (nid_ix(&fp.nid), (alias_ix(&fp.alias), pol_char(fp.policy))))
+        .collect();
+    let all_s: BTreeMap<usize, String> = db
+        .seed_policies()
+        .map_err(|e| e.to_string())?
+        .map(|sp| {
+            (
+                rid_ix(&sp.rid),
+                match sp.policy {
+                    SeedingPolicy::Allow { scope: Scope::Followed } => "A.f".to_string(),
+                    SeedingPolicy::Allow { scope: Scope::All } => "A.a".to_string(),
+                    SeedingPolicy::Block => "B".to_string(),
+                },
+            )
+        })
+        .collect();
+    if all_f != d.following || all_s != d.seeding {
+        run.v("policy-view-inconsistent", "follow_policies/seed_policies disagree with the point queries".to_string());
+    }
+    Ok(d)
+}
+
+fn run_policy(ops: &[&str]) -> Outcome {
+    let mut db = StoreWriter::memory().expect("in-memory policy store");
+    let mut run = Run::new("policy");
+    // oracle shadow: the last scope written to a row since it exists
+    let mut last_scope: BTreeMap<usize, &'static str> = BTreeMap::new();
+    for op in ops {
+        let f: Vec<&str> = op.split(':').collect();
+        let before = match policy_dump(&db, &mut run) {
+            Ok(d) => d,
+            Err(e) => return Outcome::new("error").violation("store-error", e),
+        };
+        let id = |s: &str| ix(s).filter(|i| *i < POL_U);
+        let pol = |s: &str| match s {
+            "a" => Some(Policy::Allow),
+            "b" => Some(Policy::Block),
+            _ => None,
+        };
+        // (table touched: 'F' or 'S', id)
+        let (res, target): (Result<bool, String>, (char, usize)) = match f.as_slice() {
+            ["follow", i, a] => {
+                let (Some(i), Some(a)) = (id(i), ix(a)) else { return bad() };
+                if a > 50 {
+                    return bad();
+                }
+                let alias = (a > 0).then(|| Alias::new(format!("al{a}")));
+                (db.follow(&nid(i).unwrap(), alias.as_ref()).map_err(|e| e.to_string()), ('F', i))
+            }
+            ["fpol", i, p] => {
+                let (Some(i), Some(p)) = (id(i), pol(p)) else { return bad() };
+                (db.set_follow_policy(&nid(i).unwrap(), p).map_err(|e| e.to_string()), ('F', i))
+            }
+            ["unfollow", i] => {
+                let Some(i) = id(i) else { return bad() };
+                (db.unfollow(&nid(i).unwrap()).map_err(|e| e.to_string()), ('F', i))
+            }
+            ["unblockn", i] => {
+                let Some(i) = id(i) else { return bad() };
+                (db.unblock_nid(&nid(i).unwrap()).map_err(|e| e.to_string()), ('F', i))
+            }
+            ["seed", i, s] => {
+                let Some(i) = id(i) else { return bad() };
+                let s = match *s {
+                    "f" => Scope::Followed,
+                    "a" => Scope::All,
+                    _ => return bad(),
+                };
+                (db.seed(&rid(i).unwrap(), s).map_err(|e| e.to_string()), ('S', i))
+            }
+            ["spol", i, p] => {
+                let (Some(i), Some(p)) = (id(i), pol(p)) else { return bad() };
+                (db.set_seed_policy(&rid(i).unwrap(), p).map_err(|e| e.to_string()), ('S', i))
+            }
+            ["unseed", i] => {
+                let Some(i) = id(i) else { return bad() };
+                (db.unseed(&rid(i).unwrap()).map_err(|e| e.to_string()), ('S', i))
+            }
+            ["unblockr", i] => {
+                let Some(i) = id(i) else { return bad() };
+                (db.unblock_rid(&rid(i).unwrap()).map_err(|e| e.to_string()), ('S', i))
+            }
+            _ => return bad(),
+        };
+        run.tag(f[0]);
+        let b = match res {
+            Ok(b) => b,
+            Err(e) => {
+                run.outs.push("error".into());
+                run.v("store-error", format!("op {op}: {e}"));
+                continue;
+            }
+        };
+        let after = match policy_dump(&db, &mut run) {
+            Ok(d) => d,
+            Err(e) => return Outcome::new("error").violation("store-error", e),
+        };
+        // ---- oracle: the written column shows the written value
+        let i = target.1;
+        match f.as_slice() {
+            ["follow", _, a] => {
+                if after.following.get(&i).map(|r| r.0) != ix(a) {
+                    run.v("policy-not-last-write", format!("op {op}: alias of {i} is {:?}", after.following.get(&i)));
+                }
+                if let Some(r0) = before.following.get(&i) {
+                    if after.following.get(&i).map(|r| r.1) != Some(r0.1) {
+                        run.v("policy-frame-broken", format!("op {op}: follow changed the policy column of {i}"));
+                    }
+                }
+            }
+            ["fpol", _, p] => {
+                if after.following.get(&i).map(|r| r.1) != p.chars().next() {
+                    run.v("policy-not-last-write", format!("op {op}: policy of {i} is {:?}", after.following.get(&i)));
+                }
+                if let Some(r0) = before.following.get(&i) {
+                    if after.following.get(&i).map(|r| r.0) != Some(r0.0) {
+                        run.v("policy-frame-broken", format!("op {op}: set_follow_policy changed the alias column of {i}"));
+                    }
+                }
+            }
+            ["seed", _, s] => {
+                let want = if *s == "f" { "A.f" } else { "A.a" };
+                if before.seeding.get(&i).map(|s| s == "B").unwrap_or(false) {
+                    run.tag("seed-on-blocked");
+                }
+                last_scope.insert(i, want);
+                let was_blocked = before.seeding.get(&i).map(|s| s == "B").unwrap_or(false);
+                match after.seeding.get(&i).map(|s| s.as_str()) {
+                    // per-column reading: `seed` writes the scope column only, a blocked row stays blocked
+                    Some("B") if was_blocked => {}
+                    Some(x) if was_blocked => run.v("policy-frame-broken", format!("op {op}: seed changed the policy column of {i} (now {x})")),
+                    Some(x) if x == want => {}
+                    other => run.v("policy-not-last-write", format!("op {op}: seeding policy of {i} is {other:?}")),
+                }
+            }
+            ["spol", _, p] => {
+                if !before.seeding.contains_key(&i) {
+                    run.tag("spol-creates-row");
+                    last_scope.insert(i, "A.f");
+                }
+                let got = after.seeding.get(&i).map(|s| s.as_str());
+                let ok = match (*p, got) {
+                    ("b", Some("B")) => true,
+                    ("a", Some(x)) => Some(&x) == last_scope.get(&i).as_ref().map(|s| *s),
+                    _ => false,
+                };
+                if !ok {
+                    run.v(
+                        "policy-not-last-write",
+                        format!("op {op}: seeding policy of {i} is {got:?}, last scope written {:?}", last_scope.get(&i)),
+                    );
+                }
+            }
+            ["unfollow", _] => {
+                if after.following.contains_key(&i) {
+                    run.v("policy-not-last-write", format!("op {op}: {i} still followed"));
+                }
+            }
+            ["unseed", _] => {
+                if after.seeding.contains_key(&i) {
+                    run.v("policy-not-last-write", format!("op {op}: {i} still seeded"));
+                }
+            }
+            ["unblockn", _] => {
+                let was_blocked = before.following.get(&i).map(|r| r.1 == 'b').unwrap_or(false);
+                if was_blocked == after.following.contains_key(&i) && before.following.contains_key(&i) {
+                    run.v("policy-not-last-write", format!("op {op}: unblock of {i}: before {:?} after {:?}", before.following.get(&i), after.following.get(&i)));
+                }
+            }
+            ["unblockr", _] => {
+                let was_blocked = before.seeding.get(&i).map(|s| s == "B").unwrap_or(false);
+                if was_blocked == after.seeding.contains_key(&i) && before.seeding.contains_key(&i) {
+                    run.v("policy-not-last-write", format!("op {op}: unblock of {i}: before {:?} after {:?}", before.seeding.get(&i), after.seeding.get(&i)));
+                }
+            }
+            _ => {}
+        }
+        if !after.seeding.contains_key(&i) && target.0 == 'S' {
+            last_scope.remove(&i);
+        }
+        // ---- oracle: frame
+        for j in 0..POL_U {
+            if (target.0 != 'F' || j != i) && before.following.get(&j) != after.following.get(&j) {
+                run.v("policy-frame-broken", format!("op {op}: following row {j} changed"));
+            }
+            if (target.0 != 'S' || j != i) && before.seeding.get(&j) != after.seeding.get(&j) {
+                run.v("policy-frame-broken", format!("op {op}: seeding row {j} changed"));
+            }
+        }
+        if after != before {
+            run.changed += 1;
+        } else {
+            run.refused += 1;
+        }
+        run.outs.push(format!(
+            "{}|F:{};S:{}",
+            b as u8,
+            show(after.following.iter().map(|(i, (a, p))| format!("{i}={a}/{p}"))),
+            show(after.seeding.iter().map(|(i, s)| format!("{i}={s}")))
+        ));
+    }
+    run.finish()
+}
+
+// ---------------------------------------------------------------------------------------------
+// gossip
+
+/// (node, repo (0 = none), type) -> (payload, ts)
+type GDump = BTreeMap<(usize, usize, usize), (u64, u64)>;
+
+fn make_ann(node: usize, repo: usize, ty: usize, payload: u64, t: Timestamp) -> Option<Announcement> {
+    let message = match ty {
+        0 => {
+            let inv: Vec<RepoId> = pools().rids.iter().take((payload % 3) as usize).copied().collect();
+            AnnouncementMessage::Inventory(InventoryAnnouncement { inventory: BoundedVec::try_from(inv).ok()?, timestamp: t })
+        }
+        1 => AnnouncementMessage::Node(NodeAnnouncement {
+            version: 1,
+            features: Features::SEED,
+            timestamp: t,
+            alias: Alias::new("verif"),
+            addresses: BoundedVec::new(),
+            nonce: payload,
+            agent: UserAgent::default(),
+        }),
+        2 => AnnouncementMessage::Refs(RefsAnnouncement { rid: rid(repo.checked_sub(1)?)?, refs: BoundedVec::new(), timestamp: t }),
+        _ => return None,
+    };
+    Some(Announcement { node: nid(node)?, signature: Signature::from([payload as u8; 64]), message })
+}
+
+fn ann_row(a: &Announcement) -> ((usize, usize, usize), (u64, u64), bool) {
+    let payload = a.signature.as_ref()[0] as u64;
+    let (repo, ty, consistent) = match &a.message {
+        AnnouncementMessage::Inventory(m) => (0, 0, m.inventory.len() as u64 == payload % 3),
+        AnnouncementMessage::Node(m) => (0, 1, m.nonce == payload),
+        AnnouncementMessage::Refs(m) => (rid_ix(&m.rid) + 1, 2, true),
+    };
+    ((nid_ix(&a.node), repo, ty), (payload, *a.message.timestamp()), consistent)
+}
+
+fn gossip_rows(db: &Database, from: Timestamp, to: Timestamp, run: &mut Run) -> Result<Vec<((usize, usize, usize), (u64, u64))>, String> {
+    let filter = Filter::default();
+    let mut rows = vec![];
+    let mut last = 0u64;
+    for a in db.filtered(&filter, from, to).map_err(|e| e.to_string())? {
+        let a = a.map_err(|e| e.to_string())?;
+        let (k, v, consistent) = ann_row(&a);
+        if !consistent {
+            run.v("gossip-message-signature-mismatch", format!("row {k:?}: message and signature come from different announcements"));
+        }
+        if v.1 < last {
+            run.v("gossip-filtered-unordered", format!("row {k:?} out of timestamp order"));
+        }
+        last = v.1;
+        rows.push((k, v));
+    }
+    rows.sort();
+    Ok(rows)
+}
+
+fn show_grows(rows: &[((usize, usize, usize), (u64, u64))]) -> String {
+    show(rows.iter().map(|((n, r, t), (p, ts))| format!("{n}.{r}.{t}={p}@{ts}")))
+}
+
+fn run_gossip(ops: &[&str]) -> Outcome {
+    let mut db = memdb();
+    let mut run = Run::new("gossip");
+    let all = |db: &Database, run: &mut Run| -> Result<GDump, String> {
+        Ok(gossip_rows(db, Timestamp::MIN, Timestamp::MAX, run)?.into_iter().collect())
+    };
+    for op in ops {
+        let f: Vec<&str> = op.split(':').collect();
+        let before = match all(&db, &mut run) {
+            Ok(d) => d,
+            Err(e) => return Outcome::new("error").violation("store-error", e),
+        };
+        let mut written: Option<((usize, usize, usize), u64, u64)> = None;
+        let mut is_write = true;
+        let res: Result<String, String> = match f.as_slice() {
+            ["ann", n, r, ty, p, t] => {
+                let (Some(n), Some(r), Some(ty), Some(p), Some(tt)) = (ix(n), ix(r), ix(ty), num(p), num(t)) else { return bad() };
+                let valid = (ty == 2 && r >= 1) || (ty < 2 && r == 0);
+                if !valid || p > 255 || tt >= MAX_TS {
+                    return bad();
+                }
+                let Some(ann) = ts(tt).and_then(|t| make_ann(n, r, ty, p, t)) else { return bad() };
+                written = Some(((n, r, ty), p, tt));
+                match before.get(&(n, r, ty)) {
+                    None => run.tag("ann-new"),
+                    Some((_, t0)) if tt > *t0 => run.tag("ann-newer"),
+                    Some((_, t0)) if tt == *t0 => run.tag("ann-equal-ts"),
+                    Some(_) => run.tag("ann-older"),
+                }
+                if before.keys().any(|k| k.0 == n && k.2 != ty) {
+                    run.tag("ann-same-node-other-type");
+                }
+                let nid = ann.node;
+                match catch(|| db.announced(&nid, &ann)) {
+                    Err(_) => {
+                        run.tag("ann-zero-ts-panic");
+                        run.outs.push("panic".into());
+                        return run.finish();
+                    }
+                    Ok(r) => r.map_err(|e| e.to_string()).map(|id| id.map(|i| i.to_string()).unwrap_or("none".into())),
+                }
+            }
+            ["relay", id, r] => {
+                let Some(id) = num(id) else { return bad() };
+                let status = match *r {
+                    "r" => RelayStatus::Relay,
+                    "d" => RelayStatus::DontRelay,
+                    s => match s.strip_prefix('t').and_then(num).and_then(ts) {
+                        Some(t) => RelayStatus::RelayedAt(t),
+                        None => return bad(),
+                    },
+                };
+                run.tag("set-relay");
+                is_write = false;
+                let r = db.set_relay(id, status).map_err(|e| e.to_string()).map(|_| "ok".to_string());
+                // relay status is not visible in the dump, but the rows must not change
+                if let Ok(after) = all(&db, &mut run) {
+                    if after != before {
+                        run.v("gossip-replaced-not-newer", format!("op {op}: set_relay changed stored announcements"));
+                    }
+                }
+                r
+            }
+            ["relays", now] => {
+                let Some(now) = num(now).and_then(ts) else { return bad() };
+                run.tag("relays");
+                db.relays(now).map_err(|e| e.to_string()).map(|rows| {
+                    show(rows.iter().map(|(id, a)| {
+                        let ((n, r, t), (p, ts), _) = ann_row(a);
+                        format!("{id}:{n}.{r}.{t}={p}@{ts}")
+                    }))
+                })
+            }
+            ["prune", c] => {
+                let Some(c) = num(c).and_then(ts) else { return bad() };
+                run.tag("prune");
+                GossipStore::prune(&mut db, c).map_err(|e| e.to_string()).map(|n| n.to_string())
+            }
+            ["filt", a, b] => {
+                let (Some(a), Some(b)) = (num(a).and_then(ts), num(b).and_then(ts)) else { return bad() };
+                is_write = false;
+                if a > b {
+                    run.tag("filtered-inverted-range");
+                }
+                gossip_rows(&db, a, b, &mut run).map(|rows| show_grows(&rows))
+            }
+            ["last"] => {
+                is_write = false;
+                db.last().map_err(|e| e.to_string()).map(|t| t.map(|t| t.to_string()).unwrap_or("-".into()))
+            }
+            _ => return bad(),
+        };
+        let res = match res {
+            Ok(r) => r,
+            Err(e) => {
+                run.outs.push("error".into());
+                run.v("store-error", format!("op {op}: {e}"));
+                continue;
+            }
+        };
+        if !is_write || f[0] == "relays" {
+            if f[0] == "relays" {
+                if let Ok(after) = all(&db, &mut run) {
+                    if after != before {
+                        run.v("gossip-replaced-not-newer", format!("op {op}: relays changed stored announcements"));
+                    }
+                }
+            }
+            run.outs.push(res);
+            continue;
+        }
+        let after = match all(&db, &mut run) {
+            Ok(d) => d,
+            Err(e) => {
+                run.outs.push("error".into());
+                run.v("store-error", format!("op {op}: {e}"));
+                continue;
+            }
+        };
+        // ---- oracle: replaced only by a strictly newer announcement of the same kind
+        for (k, (p0, t0)) in &before {
+            if let Some((p1, t1)) = after.get(k) {
+                if (p1, t1) != (p0, t0) {
+                    match written {
+                        Some((wk, wp, wt)) if wk == *k => {
+                            if !(t1 > t0 && wp == *p1 && wt == *t1) {
+                                run.v("gossip-replaced-not-newer", format!("op {op}: row {k:?} went from {p0}@{t0} to {p1}@{t1}"));
+                            }
+                        }
+                        _ => run.v("gossip-replaced-by-other-kind", format!("op {op}: row {k:?} went from {p0}@{t0} to {p1}@{t1}")),
+                    }
+                }
+            } else if f[0] == "ann" {
+                run.v("gossip-replaced-by-other-kind", format!("op {op}: row {k:?} disappeared"));
+            }
+        }
+        if after != before {
+            run.changed += 1;
+        } else {
+            run.refused += 1;
+        }
+        let rows: Vec<_> = after.iter().map(|(k, v)| (*k, *v)).collect();
+        run.outs.push(format!("{res}|{}", show_grows(&rows)));
+    }
+    run.finish()
+}
+
+// ---------------------------------------------------------------------------------------------
+
+fn run_case(input: &str) -> Outcome {
+    let toks: Vec<&str> = input.split(' ').filter(|t| !t.is_empty()).collect();
+    let Some((store, ops)) = toks.split_first() else { return bad() };
+    match *store {
+        "routing" => run_routing(ops, false, &mut vec![]),
+        "sync" => run_sync(ops),
+        "refs" => run_refs(ops),
+        "policy" => run_policy(ops),
+        "gossip" => run_gossip(ops),
+        _ => bad(),
+    }
+}
+
+/// Timestamps: mostly tiny (ties and equal-timestamp writes are the norm), sometimes huge.
+fn gen_ts(rng: &mut Rng) -> u64 {
+    match rng.below(12) {
+        0 => rng.range(1_000, 2_000),
+        1 => MAX_TS - 1 - rng.below(3),
+        _ => rng.below(7),
+    }
+}
+
+fn gen_routing(rng: &mut Rng) -> String {
+    let (nr, nn) = (rng.range(2, 4), rng.range(2, 3));
+    let n = rng.range(5, 30);
+    let mut ops = vec![];
+    for _ in 0..n {
+        ops.push(match rng.below(20) {
+            0..=8 => {
+                let k = rng.range(1, nr);
+                let mut rids: Vec<u64> = (0..k).map(|_| rng.below(nr)).collect();
+                if rng.chance(3, 4) {
+                    rids.sort();
+                    rids.dedup();
+                }
+                format!("add:{}:{}:{}", rng.below(nn), gen_ts(rng), nats(&rids))
+            }
+            9 => format!("rm:{}:{}", rng.below(nr), rng.below(nn)),
+            10 => format!("rmm:{}:{}", rng.below(nn), nats(&(0..rng.range(1, 2)).map(|_| rng.below(nr)).collect::<Vec<_>>())),
+            11..=15 => {
+                let limit = if rng.chance(1, 5) { "-".to_string() } else { rng.below(4).to_string() };
+                let oldest = if rng.chance(1, 2) { rng.range(3, 8) } else { gen_ts(rng) + rng.below(2) };
+                format!("prune:{oldest}:{limit}:{}:?", rng.below(nn))
+            }
+            16 => format!("entry:{}:{}", rng.below(nr), rng.below(nn)),
+            17 => format!("get:{}", rng.below(nr)),
+            18 => format!("inv:{}", rng.below(nn)),
+            _ => {
+                if rng.bool() {
+                    "len".to_string()
+                } else {
+                    format!("count:{}", rng.below(nr))
+                }
+            }
+        });
+    }
+    let text = format!("routing {}", ops.join(" "));
+    // first execution: learn which rows the real prune deletes
+    let toks: Vec<&str> = text.split(' ').collect();
+    let mut resolved = vec![];
+    let _ = run_routing(&toks[1..], true, &mut resolved);
+    format!("routing {}", resolved.join(" "))
+}
+
+fn gen_sync(rng: &mut Rng) -> String {
+    let (nr, nn, nh) = (rng.range(1, 2), rng.range(1, 3), rng.range(2, 3));
+    let ops: Vec<String> = (0..rng.range(4, 30))
+        .map(|_| match rng.below(10) {
+            0 => format!("for:{}", rng.below(nr)),
+            1 => format!("by:{}", rng.below(nn)),
+            _ => format!("syn:{}:{}:{}:{}", rng.below(nr), rng.below(nn), rng.below(nh), gen_ts(rng)),
+        })
+        .collect();
+    format!("sync {}", ops.join(" "))
+}
+
+fn gen_refs(rng: &mut Rng) -> String {
+    let (nr, nn, nf, no) = (rng.range(1, 2), rng.range(1, 2), rng.range(1, 3), rng.range(2, 3));
+    let ops: Vec<String> = (0..rng.range(4, 30))
+        .map(|_| match rng.below(12) {
+            0 => format!("get:{}:{}:{}", rng.below(nr), rng.below(nn), rng.below(nf)),
+            1 => "count".to_string(),
+            2 => format!("del:{}:{}:{}", rng.below(nr), rng.below(nn), rng.below(nf)),
+            _ => format!("set:{}:{}:{}:{}:{}", rng.below(nr), rng.below(nn), rng.below(nf), rng.below(no), gen_ts(rng)),
+        })
+        .collect();
+    format!("refs {}", ops.join(" "))
+}
+
+fn gen_policy(rng: &mut Rng) -> String {
+    let ni = rng.range(1, 3);
+    let ops: Vec<String> = (0..rng.range(4, 30))
+        .map(|_| {
+            let i = rng.below(ni);
+            match rng.below(16) {
+                0..=2 => format!("follow:{i}:{}", rng.below(3)),
+                3..=4 => format!("fpol:{i}:{}", if rng.bool() { 'a' } else { 'b' }),
+                5 => format!("unfollow:{i}"),
+                6 => format!("unblockn:{i}"),
+                7..=10 => format!("seed:{i}:{}", if rng.bool() { 'f' } else { 'a' }),
+                11..=13 => format!("spol:{i}:{}", if rng.bool() { 'a' } else { 'b' }),
+                14 => format!("unseed:{i}"),
+                _ => format!("unblockr:{i}"),
+            }
+        })
+        .collect();
+    format!("policy {}", ops.join(" "))
+}
+
+fn gen_gossip(rng: &mut Rng) -> String {
+    let (nn, nr) = (rng.range(1, 3), rng.range(1, 2));
+    let zero = rng.chance(1, 10);
+    let n = rng.range(4, 30);
+    let mut ops = vec![];
+    for i in 0..n {
+        ops.push(match rng.below(16) {
+            0..=8 => {
+                let ty = rng.below(3);
+                let repo = if ty == 2 { rng.range(1, nr) } else { 0 };
+                let mut t = gen_ts(rng).max(1);
+                if zero && i + 1 == n {
+                    t = 0;
+                }
+                format!("ann:{}:{repo}:{ty}:{}:{t}", rng.below(nn), rng.below(200))
+            }
+            9..=10 => format!("relay:{}:{}", rng.range(1, 6), match rng.below(3) {
+                0 => "r".to_string(),
+                1 => "d".to_string(),
+                _ => format!("t{}", rng.below(9)),
+            }),
+            11 => format!("relays:{}", rng.range(1, 9)),
+            12 => format!("prune:{}", gen_ts(rng)),
+            13..=14 => format!("filt:{}:{}", gen_ts(rng), gen_ts(rng)),
+            _ => "last".to_string(),
+        });
+    }
+    format!("gossip {}", ops.join(" "))
+}
+
 fn main() {
-    eprintln!("C24: harness not implemented");
-    std::process::exit(3);
+    let mut ctx = Ctx::from_args("C24");
+    if !ctx.run_fixed(run_case) {
+        let mut rng = ctx.rng();
+        let n = ctx.size(250, 8_000);
+        for _ in 0..n {
+            for g in [gen_routing, gen_sync, gen_refs, gen_policy, gen_gossip] {
+                let input = g(&mut rng);
+                let o = run_case(&input);
+                ctx.record(&input, o);
+            }
+        }
+    }
+    ctx.finish(
+        "random operation sequences (4-30 ops) against a fresh in-memory instance of each of the five stores, over 1-3 ids per \
+         column and timestamps mostly in 0..7 (equal-timestamp writes, same-value writes and ties at the prune cut are the norm; \
+         some large and near-i64::MAX timestamps); routing prune carries the rows the real code deleted; non-trivial = at least one \
+         write changed the table and at least one write was refused; distinct by input text",
+        false,
+    );
 }
